@@ -2,10 +2,13 @@
 import itertools
 import random
 from vf import Case
+from gen import constants
 
 ID = "C17"
 DRIVER = "drv_streams"
 HARNESS = "h_streams"
+GEN = [constants.gen]
+TIE = ['Ufw.Tie.Misc']
 SYMS = ["k1", "k2", "k9", "z", "i", "a", "h:eio", "h:enomem"]
 RULE = ("every driver script up to a length bound (quick 3, thorough 5; longer ones sampled) over {1, 2, many, 0, EINTR, EAGAIN, hard EIO, "
         "hard ENOMEM} as source script and as sink script, for octet- and chunk-style drivers, through source_get_chunk / _atmost and "
